@@ -39,14 +39,15 @@ META = {
     "Correspondence: definitions of the C31 generator, shell definitions with argstr/position/sep/help/allowed_values, and "
     "definitions of the C22 generator (int/float/path/list/MultiInputObj fields, outargs with path_template, templated argstrs, "
     "multi-word executables): unstructure keys per field, structure outcome, attribute-by-attribute comparison of the recreated "
-    "fields, xor / name / executor / field order, rule violations on every assignment, positions assigned by shell.define, a "
+    "fields, xor / name / executor, the ORDER of input and output fields (in the dictionary and in the recreated class), rule violations on every assignment, positions assigned by shell.define, a "
     "second structure of the same dictionary (unchanged dictionary, same result), the argv of the model's Argv view vs the argv "
     "handed to subprocess; cmdline (shell) and outputs (python) of original vs recreated class.",
     "note": "Trusted: Lean kernel; hand-written model of unstructure/structure/define (tied by the correspondence); the encoding of "
     "attribute values as atoms (types by str(), callables by qualified name); Python `==` on attribute values is modelled as "
     "structural equality; the Argv engine's model of _command_args (its own property C22).  Class-style (decorated class) "
     "definitions, workflow definitions and custom filter / value_serializer arguments are outside the generator.",
-    "rule": "case = one generated task definition (python or shell; C31 generator: ≤ 5 fields with requirement sets and xor groups; "
+    "rule": "case = one generated task definition (python or shell; C31 generator: ≤ 5 fields with requirement sets and xor groups, "
+    "python tasks with 1–3 outputs declared in non-alphabetical order and bound positionally from the returned tuple; "
     "metadata generator: argstr, position, sep, help, allowed_values; C22 generator: ≤ 6 fields incl. outargs); distinct by "
     "canonical JSON of the definition without its class name; non-trivial = has at least one rule or non-default metadata "
     "attribute; every assignment (≤ 243) of each C31-style definition is used to compare rule behaviour of original and "
@@ -235,7 +236,10 @@ def impl_case(ctx, d: dict, argv_case: dict | None = None) -> tuple[dict, dict, 
         "unstructured": {
             "inputs": {n: sorted(v) for n, v in dct["inputs"].items()},
             "outputs": {n: sorted(v) for n, v in dct["outputs"].items()},
-        }
+        },
+        # field ORDER is part of the dictionary form (dicts are ordered) and of what the round trip must preserve:
+        # python tasks bind a returned tuple to the outputs by position
+        "order": {"inputs": list(dct["inputs"]), "outputs": list(dct["outputs"])},
     }
     before = copy.deepcopy(dct)
     behaviour = True
@@ -282,6 +286,7 @@ def model_obs(ans: dict, pos: dict | None) -> dict | None:
     failed = ans["structure"] != "ok"
     m = {
         "unstructured": {k: {n: sorted(v) for n, v in ans["unstructured"][k].items()} for k in ("inputs", "outputs")},
+        "order": ans["order"],
         "structure": ans["structure"],
         "diffs": sorted(ans["diffs"]),
         "shape_same": ans["shape_same"],
@@ -333,6 +338,9 @@ def run_defs(ctx, defs: list[dict]):
             ctx.count("c22-generator")
             ctx.count("c22:outarg" if any(f["out"] for f in d["argv_case"]["fields"]) else "c22:no-outarg")
         ctx.count(f"flavor={d['flavor']}")
+        n_out = len(obs["order"]["outputs"])
+        if n_out >= 2:
+            ctx.count("outputs>=2" + (":non-alphabetical" if obs["order"]["outputs"] != sorted(obs["order"]["outputs"]) else ""))
         ctx.count("requires" if any(f.get("requires") for f in d["fields"]) else "no-requires")
         ctx.count(f"structure:{obs['structure']}")
         if obs["structure"] == "ok":
@@ -412,6 +420,19 @@ SHELL_OK = {
 }  # fmt: skip
 
 
+# field order (seeded change C32r2: outputs listed alphabetically by unstructure): several outputs declared in
+# non-alphabetical order; python binds the returned tuple by position
+ORDER_PY = {
+    "flavor": "python", "name": "WORD", "empty": False, "xor": [], "outputs": ["zeta", "alpha", "mid"], "typed_outputs": False,
+    "fields": [_F("tag", "optstr"), _F("flag", "bool")],
+}  # fmt: skip
+ORDER_PY_T = dict(ORDER_PY, name="WORDT", typed_outputs=True, outputs=["result", "count"])
+ORDER_SH = {
+    "flavor": "shell", "name": "WORDS", "empty": False, "xor": [],
+    "fields": [_F("tag", "optstr", argstr="-t"), _F("zeta", "outopt", argstr="--zeta"), _F("alpha_out", "outopt", argstr="--alpha-out")],
+}  # fmt: skip
+
+
 def check_findings(ctx):
     """replay the witnesses of the known findings on the implementation"""
     from pydra.utils.general import structure, unstructure
@@ -452,7 +473,7 @@ def check_findings(ctx):
 
 def corpus(ctx):
     check_findings(ctx)
-    run_defs(ctx, [W53, W53S, W53P, W54, SHELL_OK])
+    run_defs(ctx, [W53, W53S, W53P, W54, SHELL_OK, ORDER_PY, ORDER_PY_T, ORDER_SH])
     cdir = core.VERIF / "corpus" / "rules"
     for f in sorted(cdir.glob("*.jsonl")):
         for line in f.read_text().splitlines():
